@@ -220,7 +220,13 @@ impl TableM {
     fn new(def: TableDef) -> TableM {
         TableM { def, rows: vec![], next_key: 0, inserts_since_compaction: 0, dv_alive: false, deleted_before_compaction: false, compactions: 0 }
     }
+    /// The key column the storage sorts by. A key declared with the table constraint
+    /// `primary key(c)` makes the column NOT NULL but is not a sort key of the storage (the
+    /// column is not flagged primary), so no order is expected for it.
     pub fn pk(&self) -> Option<usize> {
+        if !self.def.table_pk.is_empty() {
+            return None;
+        }
         self.def.cols.iter().position(|c| c.pk)
     }
     pub fn sorted_rows(&self) -> Vec<Row> {
@@ -305,7 +311,7 @@ impl Model {
                 None if self.used_names.contains(table) => Expect::Skip,
                 None => Expect::NoAck,
                 Some(t) => {
-                    let pk = t.pk();
+                    let pk = t.def.cols.iter().position(|c| c.pk);
                     let mut keys: BTreeSet<&Val> = BTreeSet::new();
                     if let Some(k) = pk {
                         keys.extend(t.rows.iter().map(|r| &r.v[k]));
@@ -522,7 +528,12 @@ impl GenState {
                 ColDef { name: format!("c{ci}"), ty, nullable: !pk && !t.chance(1, 4), pk }
             })
             .collect();
-        Some(Op::CreateTable(TableDef { name, cols }))
+        // one key in four is declared with the table constraint syntax
+        let table_pk = match pk_at {
+            Some(p) if t.chance(1, 4) => vec![p],
+            _ => vec![],
+        };
+        Some(Op::CreateTable(TableDef { name, cols, table_pk }))
     }
 
     fn insert(&mut self, t: &mut Tape, table: String) -> Op {
@@ -586,7 +597,7 @@ impl GenState {
                 if vs.is_empty() { None } else { Some(Op::DropView(vs[t.pick(vs.len())].clone())) }
             }
             11 => Some(match (t.pick(4), self.pick_table(t)) {
-                (0, Some(n)) => Op::CreateTable(TableDef { name: n, cols: vec![ColDef { name: "c0".into(), ty: Ty::Int, nullable: true, pk: false }] }),
+                (0, Some(n)) => Op::CreateTable(TableDef { name: n, cols: vec![ColDef { name: "c0".into(), ty: Ty::Int, nullable: true, pk: false }], table_pk: vec![] }),
                 (1, _) => Op::DropTable("t9".into()),
                 (2, _) => Op::Insert { table: "t9".into(), rows: vec![vec![Val::Int(1)]] },
                 _ => Op::Delete { table: "t9".into(), pred: None },
